@@ -588,6 +588,9 @@ func (c *Case) judge(out runOut, f *Fault) *harness.Violation {
 	if len(out.s.Misuse) > 0 {
 		return viol("runtime-misuse", "%s: %v; trace: %s", what, out.s.Misuse, trace(out.marks))
 	}
+	if m, races := sched.UnknownRaces(out.s.MapRaces, nil); m != "" {
+		return viol("map-race:"+m, "%s: two routines access the shared Go map or slice %s with nothing ordering them (kind, site of the open write window, site of the other access): %v", what, m, races)
+	}
 	if out.mainRes.Cond == "host-fault" {
 		return viol("host-fault", "%s: %s", what, out.mainRes.Msg)
 	}
